@@ -72,7 +72,15 @@ bool qhashmd5(const void *data, size_t nbytes, void *retbuf) {
 
     MD5_CTX context;
     MD5Init(&context);
-    MD5Update(&context, (unsigned char *) data, (unsigned int) nbytes);
+    // MD5Update() takes a 32 bit length, feed larger buffers in pieces
+    const unsigned char *dp = (const unsigned char *) data;
+    while (nbytes > 0) {
+        unsigned int chunk = (nbytes > 0x40000000) ? 0x40000000
+                                                   : (unsigned int) nbytes;
+        MD5Update(&context, dp, chunk);
+        dp += chunk;
+        nbytes -= chunk;
+    }
     MD5Final(retbuf, &context);
 
     return true;
